@@ -238,7 +238,7 @@ class Gen:
 
     def new_var(self, body, shape):
         self.vars.append(body)
-        self.var_shapes.append(tuple(shape))
+        self.var_shapes.append(None if shape is None else tuple(shape))
         return ["var", len(self.vars) - 1]
 
     def unused(self, free, n=1):
@@ -551,7 +551,37 @@ class Gen:
                          self.leaf((), (r,))]
             if rest:
                 inner_sum = ["mul", inner_sum, self.leaf((), rest)]
-            k = self.pick(["ct", "ct", "sumct", "fixed"])
+            k = self.pick(["ct", "ct", "sumct", "fixed", "survivor", "survivor"])
+            if k == "survivor":
+                # A = as_tensor(<something containing a component tensor that binds r and is not itself resolved>, (j,));
+                # A[r]: replacing j by r must not let the surviving inner binder capture the new r
+                inner = ["as_tensor", self.leaf((), (j, r)) if self.chance(2, 3) else e((), tuple(sorted((r, j))), min(d, 1)), [r]]
+                how = self.pick(["cond", "cond", "conj", "list"])
+                if how == "cond":
+                    c = [self.pick(["lt", "gt"]), e((), (), 0), e((), (), 0)]
+                    other = self.leaf((g,), (j,))
+                    keep = ["cond", c, inner, other] if self.chance(1, 2) else ["cond", c, other, inner]
+                elif how == "conj":
+                    keep = ["conj", inner]
+                else:
+                    rows = [self.leaf((g,), (j,)) for _ in range(g)]
+                    rows[self.draw(st.integers(0, g - 1))] = inner
+                    keep = ["index", ["list", rows], [":", self.draw(st.integers(0, g - 1))]] if False else ["list", rows]
+                if how == "list":
+                    body = ["index", keep, [self.draw(st.integers(0, g - 1)), self.draw(st.integers(0, g - 1))]]
+                    # a fixed row is resolved by Indexed itself; index the rows with a summed index instead
+                    k2 = [n for n in self.names if n not in (r, j) and n not in rest]
+                    if k2:
+                        q = self.pick(k2)
+                        body = ["mul", ["index", keep, [q, self.draw(st.integers(0, g - 1))]], self.leaf((), (q,))]
+                else:
+                    body = ["index", keep, [self.draw(st.integers(0, g - 1))]]
+                if rest:
+                    body = ["mul", body, self.leaf((), rest)]
+                x = ["index", ["as_tensor", body, [j]], [r]]
+                if outer_sum:
+                    return ["mul", x, self.leaf((), (r,))]
+                return x
             ct = ["as_tensor", inner_sum, [j]]
             if k == "sumct":
                 ct = ["add", ct, self.leaf((g,), ())]
